@@ -154,18 +154,54 @@ def s4(ctx, rep):
     ok = len(ds) == 1 and isinstance(ds[0], tuple) and ds[0][0] == "unpack" and fn_name(ds[0][1]) == "get_top_list" and ds[0][2] == 1
     rep.put(ok, "S4", "taint", "SynchronousHyperbandBracket._promote_trials_at_rung_complete returns get_top_list's remaining list", b, None, "")
     t = P.func("syne_tune.optimizer.schedulers.synchronous.hyperband_bracket.get_top_list")
-    ok = False
-    for x in walk_shallow(t.node):
-        if isinstance(x, ast.ListComp) and len(x.generators) == 1 and x.generators[0].ifs:
-            at = atoms_of(x.generators[0].ifs[0], True)
-            if any(a[0] == "in" and a[3] is False and "top" in a[2] for a in at):
-                ok = True
-    rep.put(ok, "S4", "agreement", "get_top_list: remaining = rung entries not in the promoted set", t, None, "")
+    gtl_partition(ctx, rep, t, "S4")
     ob = P.method("SynchronousBracket", "on_result")
     cfgb = cfg_of(ob)
     pr = ctx.nodes(ob, ctx.sel_call(selfcall="_promote_trials_at_rung_complete"), "may", 0)
     ok = bool(pr) and all(ctx.has_fact(ob, n, lambda a: a[0] == "truth" and a[1] == "is_complete" and a[2] is True) for n in pr)
     rep.put(ok, "S4", "guarded_by", "SynchronousBracket.on_result: promotion (and release of checkpoints) only when the rung is complete", ob, None, "")
+
+
+def gtl_partition(ctx, rep, t, clause):
+    """get_top_list returns (promoted, remaining): remaining must be exactly the rung entries that are not in the
+    *returned* promoted list - the exclusion set must be derived from the final value of that list."""
+    from ..core.facts import kills_and_gens
+    cfg = cfg_of(t)
+    rets = [r for r in returns_of(t) if isinstance(r.value, ast.Tuple) and len(r.value.elts) == 2]
+    if len(rets) != 1:
+        raise AnchorError("get_top_list: `return top_list, remaining_list` not found")
+    top, rem = U(rets[0].value.elts[0]), U(rets[0].value.elts[1])
+    use = None
+    for n in cfg.nodes:
+        if n.kind == "stmt" and isinstance(n.ast, ast.Assign) and U(n.ast.targets[0]) == rem and isinstance(n.ast.value, ast.ListComp):
+            use = n
+    ok = use is not None
+    why = "remaining list is not a filter comprehension over the rung"
+    if ok:
+        comp = use.ast.value
+        excl = None
+        for c in comp.generators[0].ifs:
+            for a in atoms_of(c, True):
+                if a[0] == "in" and a[3] is False:
+                    excl = a[2]
+        ok = excl is not None and "rung" in U(comp.generators[0].iter) and "valid" not in U(comp.generators[0].iter)
+        why = "remaining list does not exclude by membership over all rung entries"
+        if ok and excl != top:
+            # exclusion set derived from the promoted list: set(top_list) - and not stale
+            dn = [n for n in cfg.nodes if n.kind == "stmt" and isinstance(n.ast, ast.Assign) and U(n.ast.targets[0]) == excl]
+            ok = len(dn) == 1 and isinstance(dn[0].ast.value, ast.Call) and fn_name(dn[0].ast.value) in ("set", "frozenset") \
+                and U(dn[0].ast.value.args[0]) == top
+            why = f"exclusion set `{excl}` is not set({top})"
+            if ok:
+                fw = cfg.reachable([s_ for s_, l in cfg.succ[dn[0].id]])
+                bw = cfg.reachable(use.id, forward=False)
+                stale = [n for n in cfg.nodes if n.id in fw and n.id in bw and n.id != use.id and top in kills_and_gens(cfg, n.id)[0]]
+                ok = not stale
+                why = (f"`{excl} = set({top})` is computed before `{top}` is extended (line {stale[0].lineno if stale else 0}): trials "
+                       "added to the promoted list afterwards are also listed as not promoted - their checkpoints are released "
+                       "for deletion although they will be resumed")
+    rep.put(ok, clause, "agreement", "get_top_list: remaining = rung entries not in the returned promoted list", t, use.ast if use else None,
+            "", why)
 
 
 def s5(ctx, rep):
